@@ -1,8 +1,14 @@
 #!/bin/sh
-# usage: tools_mutant.sh <seeded-dir> <property> [budget]  -- applies patch to /repo, runs the check, reverts
+# usage: tools_mutant.sh <seeded-dir> <property> [budget]
+# applies the seeded patch in a scratch worktree of /repo (never in /repo itself), runs the check against
+# that worktree (VERIF_REPO_OVERRIDE), removes the worktree
 d=$1; p=$2; b=${3:-40}
-cd /repo && git apply "$d/patch.diff" || { echo "PATCH FAILED"; exit 9; }
-cd /verif && ./bin/vcheck run --property $p --budget $b > /tmp/vt/mut-$p.txt 2>&1; rc=$?
-cd /repo && git checkout -- . && git status --short | head -3
+wt=/tmp/mutrepo-$$
+git -C /repo worktree add --detach $wt >/dev/null 2>&1 || { echo "WORKTREE FAILED"; exit 9; }
+( cd $wt && git apply "$d/patch.diff" ) || { echo "PATCH FAILED"; git -C /repo worktree remove --force $wt; exit 9; }
+mkdir -p /tmp/vt
+cd /verif && VERIF_REPO_OVERRIDE=$wt ./bin/vcheck run --property $p --budget $b > /tmp/vt/mut-$p-$$.txt 2>&1; rc=$?
+git -C /repo worktree remove --force $wt
 echo "mutant $(basename $d) vs $p: exit=$rc"
-grep "^VIOLATION\|^  class\|^vcheck: C\|INFRASTRUCTURE" /tmp/vt/mut-$p.txt | cut -c1-260 | head -10
+grep "^VIOLATION\|^  class\|^vcheck: C\|INFRASTRUCTURE" /tmp/vt/mut-$p-$$.txt | cut -c1-260 | head -10
+rm -f /tmp/vt/mut-$p-$$.txt
